@@ -195,6 +195,13 @@ func (c *Ctx) namexRun() *nameVerdicts {
 			c.namexFoldPairs(pm, part, 2, note)
 		}()
 	}
+	wg.Add(1)
+	go func() {
+		defer wg.Done()
+		pm := newMach(c)
+		pm.maxSteps = 3000000
+		c.namexAutoHistories(pm, note)
+	}()
 	for _, kind := range []string{"functions", "variables"} {
 		for _, whose := range []string{"default", "supplied"} {
 			kind, whose := kind, whose
@@ -1323,6 +1330,209 @@ func (c *Ctx) namexHistories(m *mach, kind, whose string, note func(k, bad, unde
 	}
 }
 
+// ---- (9) automatic variables follow the default collection as it is now ----------------------------------
+//
+// "After an expression is set, with automatic variables on the default collection ends up with exactly one
+// entry per variable name": whatever happened to the calculator before. One calculator; an expression is set
+// (automatic variables on or off); the default collection is changed by its owner (cleared, one entry removed
+// by name or by index, an entry given a value, a foreign entry added) and / or the switch is turned; an
+// expression is set again - the very same text, the same text in another letter case, another text. Then the
+// collection holds the entries it held before that call, values untouched, followed by one entry per
+// identifier of the text that it lacked (none with the switch off), and with the switch on an evaluation
+// does not miss a variable.
+func (c *Ctx) namexAutoHistories(m *mach, note func(k, bad, undec string)) {
+	const key = "auto-variables-histories"
+	cctor := c.MustFunc(pkgCalc, "", "NewExpressionCalculator")
+	ct := resultType(cctor)
+	newVar := c.MustFunc("calculator/variables", "", "NewVariable")
+	vfi := c.MustFunc(pkgVariants, "", "VariantFromInteger")
+	type entry struct {
+		name string
+		val  mv // a value the history gave it (nil: whatever it has)
+	}
+	first := "a + B * c"
+	seconds := []string{first, "A + b * C", "b - d", "1 + 2"}
+	muts := []string{"nothing", "Clear()", "RemoveByName(\"b\")", "RemoveByName(\"C\")", "Remove(0)", "Get(0).SetValue(5)", "Add(z=7)", "Clear(), Add(B=7)"}
+	for _, auto0 := range []bool{true, false} {
+		for _, auto1 := range []bool{true, false} {
+			for _, mut := range muts {
+				for _, second := range seconds {
+					m.steps = 0
+					calc, out := m.Call(cctor)
+					if out.kind != "ok" {
+						note(key, "", "NewExpressionCalculator: "+out.why)
+						return
+					}
+					var hist []string
+					undec, bad := "", ""
+					step := func(what string, o mOutcome) {
+						hist = append(hist, what)
+						if o.kind == "panic" && bad == "" {
+							bad = fmt.Sprintf("one calculator: %s panics: %s", strings.Join(hist, ", "), o.why)
+						} else if o.kind != "ok" && undec == "" {
+							undec = strings.Join(hist, ", ") + ": " + o.why
+						}
+					}
+					set := func(text string) {
+						r, o := callM(c, m, ct, "SetExpression", calc, text)
+						step(fmt.Sprintf("SetExpression(%q)", text), o)
+						if o.kind == "ok" {
+							if _, isNil := r.(mNilT); !isNil && bad == "" {
+								bad = fmt.Sprintf("one calculator: after %s the well-formed expression is refused with %s", strings.Join(hist, ", "), errorCode(r))
+							}
+						}
+					}
+					var model []entry
+					create := func(text string, auto bool) {
+						ids, _ := refIdentifiers(lexemes(text))
+						for _, id := range ids {
+							have := false
+							for _, e := range model {
+								have = have || strings.EqualFold(e.name, id)
+							}
+							if auto && !have {
+								model = append(model, entry{name: id})
+							}
+						}
+					}
+					if !auto0 {
+						_, o := callM(c, m, ct, "SetAutoVariables", calc, false)
+						step("SetAutoVariables(false)", o)
+					}
+					set(first)
+					create(first, auto0)
+					dv, o := callM(c, m, ct, "DefaultVariables", calc)
+					col, ok := dv.(mIface)
+					if o.kind != "ok" || !ok {
+						note(key, "", "DefaultVariables: "+o.why)
+						continue
+					}
+					addVar := func(name string, n int64) {
+						val, _ := m.Call(vfi, n)
+						vr, o := m.Call(newVar, name, val)
+						if o.kind == "ok" {
+							_, o = callM(c, m, col.t, "Add", col.v, mIface{t: resultType(newVar), v: vr})
+						}
+						step(fmt.Sprintf("DefaultVariables().Add(%s=%d)", name, n), o)
+						model = append(model, entry{name, val})
+					}
+					removeNamed := func(name string) {
+						_, o := callM(c, m, col.t, "RemoveByName", col.v, name)
+						step(fmt.Sprintf("DefaultVariables().RemoveByName(%q)", name), o)
+						for i, e := range model {
+							if strings.EqualFold(e.name, name) {
+								model = append(append([]entry{}, model[:i]...), model[i+1:]...)
+								break
+							}
+						}
+					}
+					switch mut {
+					case "Clear()":
+						_, o := callM(c, m, col.t, "Clear", col.v)
+						step("DefaultVariables().Clear()", o)
+						model = nil
+					case "RemoveByName(\"b\")":
+						removeNamed("b")
+					case "RemoveByName(\"C\")":
+						removeNamed("C")
+					case "Remove(0)":
+						if len(model) == 0 {
+							continue // nothing to remove: the history does not exist
+						}
+						_, o := callM(c, m, col.t, "Remove", col.v, int64(0))
+						step("DefaultVariables().Remove(0)", o)
+						model = model[1:]
+					case "Get(0).SetValue(5)":
+						if len(model) == 0 {
+							continue
+						}
+						val, _ := m.Call(vfi, int64(5))
+						e, o := callM(c, m, col.t, "Get", col.v, int64(0))
+						if ei, ok := e.(mIface); ok && o.kind == "ok" {
+							_, o = callM(c, m, ei.t, "SetValue", ei.v, val)
+						}
+						step("DefaultVariables().Get(0).SetValue(5)", o)
+						model[0].val = val
+					case "Add(z=7)":
+						addVar("z", 7)
+					case "Clear(), Add(B=7)":
+						_, o := callM(c, m, col.t, "Clear", col.v)
+						step("DefaultVariables().Clear()", o)
+						model = nil
+						addVar("B", 7)
+					}
+					if auto1 != auto0 {
+						_, o := callM(c, m, ct, "SetAutoVariables", calc, auto1)
+						step(fmt.Sprintf("SetAutoVariables(%v)", auto1), o)
+					}
+					set(second)
+					create(second, auto1)
+					if bad != "" || undec != "" {
+						note(key, bad, undec)
+						continue
+					}
+					names, vals, why := collectionEntries(c, m, col)
+					if why != "" {
+						note(key, "", strings.Join(hist, ", ")+": "+why)
+						continue
+					}
+					var want []string
+					for _, e := range model {
+						want = append(want, e.name)
+					}
+					same := len(names) == len(want)
+					for i := 0; same && i < len(names); i++ {
+						same = strings.EqualFold(names[i], want[i])
+					}
+					onoff := map[bool]string{true: "on", false: "off"}[auto1]
+					switch {
+					case !same:
+						bad = fmt.Sprintf("one calculator: after %s the default collection holds %q; automatic variables are %s, so it holds what it held before the last call plus one entry per identifier of %q that it lacked: %q", strings.Join(hist, ", "), names, onoff, second, want)
+					default:
+						for i, e := range model {
+							if e.val != nil && i < len(vals) {
+								if eq, known := m.equal(e.val, vals[i]); !known || !eq {
+									bad = fmt.Sprintf("one calculator: after %s the variable %q no longer has the value it was given: an entry that is already there is kept as it is", strings.Join(hist, ", "), e.name)
+								}
+							}
+						}
+					}
+					if bad == "" {
+						ids, _ := refIdentifiers(lexemes(second))
+						ev, o := callM(c, m, ct, "Evaluate", calc)
+						tp, ok := ev.(mTuple)
+						switch {
+						case o.kind == "panic":
+							bad = fmt.Sprintf("one calculator: after %s evaluating panics: %s", strings.Join(hist, ", "), o.why)
+						case o.kind != "ok" || !ok || len(tp) != 2:
+							undec = strings.Join(hist, ", ") + ", Evaluate: " + o.why
+						case auto1 && errorCode(tp[1]) == "VAR_NOT_FOUND":
+							bad = fmt.Sprintf("one calculator: after %s evaluating reports VAR_NOT_FOUND (%s); automatic variables are on, every identifier of the expression has an entry since the expression was set", strings.Join(hist, ", "), errorField(tp[1], "Message"))
+						case !auto1 && len(foldUnique(ids)) > len(foldUniqueOf(want, ids)) && errorCode(tp[1]) != "VAR_NOT_FOUND":
+							bad = fmt.Sprintf("one calculator: after %s evaluating gives %s %s; automatic variables are off and the collection %q lacks a variable of %q, which must be reported (VAR_NOT_FOUND)", strings.Join(hist, ", "), mRender(tp[0]), errorCode(tp[1]), want, second)
+						}
+					}
+					note(key, bad, undec)
+				}
+			}
+		}
+	}
+}
+
+// foldUniqueOf: the names of ids (case-insensitively, once each) that occur in have.
+func foldUniqueOf(have, ids []string) []string {
+	var out []string
+	for _, id := range foldUnique(ids) {
+		for _, h := range have {
+			if strings.EqualFold(h, id) {
+				out = append(out, id)
+				break
+			}
+		}
+	}
+	return out
+}
+
 func renderEntries(model []listEntry) string {
 	if len(model) == 0 {
 		return "no entry of that name"
@@ -1396,7 +1606,7 @@ func errorField(errv mv, field string) string {
 
 func init() {
 	register(&Rule{ID: "NAME.model", Floor: 7,
-		Doc: "variable discovery in expressions and templates (VariableNames after ParseString), automatic variables (default collections after SetExpression/SetTemplate with entries already present), the collections as ordered lists (every sequence of three of add/remove/remove-by-name/locate/clear/clear-values, FindIndexByName probes after every step) and resolution (first added wins case-insensitively; VAR_NOT_FOUND / FUNC_NOT_FOUND name the missing identifier; every three-step history of evaluations and collection changes on one calculator), identifiers whose case mappings are not one-to-one and the empty quoted identifier, evaluated abstractly through the exported API against the list model",
+		Doc: "variable discovery in expressions and templates (VariableNames after ParseString), automatic variables (default collections after SetExpression/SetTemplate with entries already present), the collections as ordered lists (every sequence of three of add/remove/remove-by-name/locate/clear/clear-values, FindIndexByName probes after every step) and resolution (first added wins case-insensitively; VAR_NOT_FOUND / FUNC_NOT_FOUND name the missing identifier; every three-step history of evaluations and collection changes on one calculator; automatic variables after the default collection was cleared / shortened / extended / given values or the switch was turned between two SetExpression calls with the same text, the same text in another letter case or another text), identifiers whose case mappings are not one-to-one and the empty quoted identifier, evaluated abstractly through the exported API against the list model",
 		Run: func(c *Ctx) []*Obligation {
 			o := newObl("NAME.model")
 			nv := c.namexRun()
@@ -1410,6 +1620,7 @@ func init() {
 				"resolution":                     c.Pos(c.MustFunc(pkgCalc, "ExpressionCalculator", "EvaluateUsingVariablesAndFunctions").Pos()),
 				"case-mappings":                  c.Pos(c.MustFunc(pkgCalc, "ExpressionCalculator", "SetExpression").Pos()),
 				"empty-identifier":               c.Pos(c.MustFunc(pkgCalc, "ExpressionCalculator", "CreateVariables").Pos()),
+				"auto-variables-histories":       c.Pos(c.MustFunc(pkgCalc, "ExpressionCalculator", "SetExpression").Pos()),
 				"resolution-histories-functions": c.Pos(c.MustFunc(pkgCalc, "ExpressionCalculator", "EvaluateUsingVariablesAndFunctions").Pos()),
 				"resolution-histories-variables": c.Pos(c.MustFunc(pkgCalc, "ExpressionCalculator", "EvaluateUsingVariables").Pos()),
 			}
